@@ -11,6 +11,7 @@
 #include "stdinc.h"
 
 #include "toolutils.h"
+#include "bpemu.h"
 
 #include "addrspace.h"
 #include "as_endian.h"
@@ -211,8 +212,9 @@ void WriteRecordHeader(
 }
 
 void SkipRecord(Byte Header, char const* Name, FILE* f) {
-    int      Length;
-    LongWord Addr, RelocCount, ExportCount, StringLen;
+    LargeWord Length;
+    long      Pos;
+    LongWord  Addr, RelocCount, ExportCount, StringLen;
     Word     Len;
 
     switch (Header) {
@@ -232,7 +234,7 @@ void SkipRecord(Byte Header, char const* Name, FILE* f) {
         if (!Read4(f, &StringLen)) {
             ChkIO(Name);
         }
-        Length = (16 * RelocCount) + (16 * ExportCount) + StringLen;
+        Length = ((LargeWord)16 * RelocCount) + ((LargeWord)16 * ExportCount) + StringLen;
         break;
     default:
         if (!Read4(f, &Addr)) {
@@ -245,7 +247,13 @@ void SkipRecord(Byte Header, char const* Name, FILE* f) {
         break;
     }
 
-    if (fseek(f, Length, SEEK_CUR) != 0) {
+    /* the counts come from the file: a record cannot reach behind its end */
+
+    Pos = ftell(f);
+    if ((Pos < 0) || (Length > (LargeWord)(FileSize(f) - Pos))) {
+        FormatError(Name, catgetmessage(&MsgCat, Num_FormatInvRecordHeaderMsg));
+    }
+    if (fseek(f, (long)Length, SEEK_CUR) != 0) {
         ChkIO(Name);
     }
 }
